@@ -68,7 +68,9 @@ Allowed(fl, ty, k, n, e, s, y) ==
   \* without the synchronisation that value's own type provides":
   \*  - a builder carries a callback whose captures are erased from its type; nothing written on
   \*    K, N, E can justify sending or sharing it (the callback may own an Rc, a plain node, a
-  \*    sync node with a Cell value ...)
+  \*    sync node with a Cell value ...).  The observed rows are builders to which a callback
+  \*    capturing an Rc HAS been attached (if the API ever demanded `+ Send` callbacks, that
+  \*    would not compile and the probe reports a tool error instead of a verdict)
   ELSE IF ty \in ClosureCarriers THEN ~s /\ ~y
   \*  - an iterator / path reaches node and edge values: only if, as for the node itself
   ELSE IF ty \in AccessCarriers THEN (s \/ y) => AllBoth(k, n, e)
